@@ -447,13 +447,30 @@ where
         match r {
             Ok(()) => {}
             Err(CallErr::Injected) => {
-                // insert makes no user callback today; if it ever does, the value must be all-in or all-out
+                // an insert that calls user code must still be all-in or all-out
                 self.out.injections += 1;
-                let n = self.tree.verif_copies().iter().filter(|(_, _, v)| v.id == id).count();
-                if n != 0 {
+                if self.rc.inject_all {
+                    self.out.class("injection_delivered_compound");
+                }
+                let places: Vec<usize> = self.tree.verif_copies().iter().filter(|(_, _, v)| v.id == id).map(|(p, _, _)| *p).collect();
+                if !places.is_empty() {
+                    let b0 = self.lay.bucket(lo);
+                    let b1 = self.lay.bucket(hi);
+                    let mut cover = [0u8; 32];
+                    for p in &places {
+                        let (l0, l1) = leaves_under(*p);
+                        for b in l0..=l1.min(31) {
+                            cover[b as usize] += 1;
+                        }
+                    }
+                    let complete = (0..32u32).all(|b| cover[b as usize] == (b >= b0 && b <= b1) as u8);
+                    if !complete {
+                        self.out.fail(18, "torn-insert-after-panic", i, format!("SegExpTree: a panic injected into insert_by_range([{}, {}]) left the value stored at places {:?} only, which do not cover its buckets {}..{}", lo, hi, places, b0, b1));
+                        return Step::Stop;
+                    }
                     self.model.push(MVal { id, lo, hi, exp });
                 }
-                return Step::Continue;
+                return self.check_whole_after_injection(i);
             }
             Err(e) => return self.on_call_err(i, e, &[15, 3], "insert_by_range"),
         }
@@ -518,6 +535,9 @@ where
             }
             if per_place.iter().any(|c| *c >= 17) {
                 self.out.class("chunk_ge_17_entries");
+            }
+            if per_place.iter().any(|c| *c >= 65) {
+                self.out.class("chunk_ge_65_entries");
             }
         }
         if expired_before > 0 {
@@ -624,7 +644,9 @@ where
                 return Step::Stop;
             }
         }
-        if self.rc.obs(15) && exhausted && self.model.iter().all(|m| m.exp >= t) {
+        // C15 through the API: on a domain of at most 32 points (bucket == point) the stored-at
+        // places of every unexpired value must meet the visited places iff the ranges overlap
+        if self.rc.obs(15) && exhausted && self.lay.shift == 0 {
             // single insert: the masks meet iff the bucket ranges overlap
             self.out.observations += 1;
             if ids != expected {
